@@ -300,6 +300,10 @@ impl Prop for C15 {
             k.wild_goto_pct = 0;
         }
         k.max_lines = 3 + rng.usize(16);
+        // any u64 is a line number on both paths: now and then the whole program sits far up
+        if rng.chance(1, 8) {
+            k.line_base = rng.pick(&[63_990u64, 64_000, 65_530, 4_294_967_290, 1_000_000_000_000_000, u64::MAX - 2_000]);
+        }
         let mut grng = rng.fork();
         let (mut lines, info) = Gen::new(&mut grng, k.clone()).program();
         // a duplicated line number (last one wins in both paths)
